@@ -471,6 +471,41 @@ Qed.
 Require Import MV.Spec.OptionsSpec MV.Proofs.CanonP.
 Local Open Scope nat_scope.
 
+(* hnorm respects == *)
+Lemma all2_map_hnorm : forall x y, Forall (fun a => forall b, py_eq a b = true -> py_eq (hnorm a) (hnorm b) = true) x ->
+  all2 py_eq x y = true -> all2 py_eq (map hnorm x) (map hnorm y) = true.
+Proof.
+  induction x as [|a x IH]; destruct y as [|b y]; cbn; intros HF H; try discriminate; [reflexivity|].
+  inversion HF as [|? ? Ha Hx]; subst. apply andb_true_iff in H. destruct H as [H1 H2]. rewrite (Ha b H1). cbn. apply IH; assumption.
+Qed.
+Lemma set_map_hnorm : forall x y, Forall (fun a => forall b, py_eq a b = true -> py_eq (hnorm a) (hnorm b) = true) x ->
+  Nat.eqb (List.length x) (List.length y) && forallb (fun e => existsb (py_eq e) y) x = true ->
+  Nat.eqb (List.length (map hnorm x)) (List.length (map hnorm y)) && forallb (fun e => existsb (py_eq e) (map hnorm y)) (map hnorm x) = true.
+Proof.
+  intros x y HF H. apply andb_true_iff in H. destruct H as [Hl Hall]. rewrite !map_length, Hl. cbn.
+  apply forallb_forall. intros e He. apply in_map_iff in He. destruct He as (a & <- & Ha).
+  rewrite forallb_forall in Hall. specialize (Hall a Ha). apply existsb_exists in Hall. destruct Hall as (b & Hb & Hab).
+  apply existsb_exists. exists (hnorm b). split; [apply in_map; exact Hb|]. rewrite Forall_forall in HF. exact (HF a Ha b Hab).
+Qed.
+Lemma hnorm_respects_eq : forall a b, py_eq a b = true -> py_eq (hnorm a) (hnorm b) = true.
+Proof.
+  induction a using pyval_ind'; intros v Heq.
+  - destruct v; cbn in Heq; try discriminate. reflexivity.
+  - destruct v; cbn in Heq; try discriminate; cbn [hnorm]; [exact Heq|].
+    destruct (Z.eqb z (-1)) eqn:E; [apply Z.eqb_eq in E; subst; destruct b; discriminate | exact Heq].
+  - destruct v; cbn in Heq; try discriminate; cbn [hnorm].
+    + destruct (Z.eqb z (-1)) eqn:E; [apply Z.eqb_eq in E; subst; destruct b; discriminate | exact Heq].
+    + apply Z.eqb_eq in Heq. subst z0. destruct (Z.eqb z (-1)); cbn; try reflexivity; apply Z.eqb_refl.
+  - destruct v; cbn in Heq; try discriminate; cbn [hnorm]. apply String.eqb_eq in Heq. subst s0.
+    destruct (String.eqb s ""); [reflexivity | cbn; apply String.eqb_refl].
+  - destruct v; cbn [py_eq] in Heq; try discriminate; cbn [hnorm py_eq]. apply all2_map_hnorm; assumption.
+  - destruct v; cbn [py_eq] in Heq; try discriminate; cbn [hnorm py_eq]. apply all2_map_hnorm; assumption.
+  - destruct v; cbn [py_eq] in Heq; try discriminate; cbn [hnorm py_eq]; apply set_map_hnorm; assumption.
+  - destruct v; cbn [py_eq] in Heq; try discriminate; cbn [hnorm py_eq]; apply set_map_hnorm; assumption.
+  - destruct v; cbn [py_eq] in Heq; try discriminate; cbn [hnorm]. exact Heq.
+  - destruct v; cbn in Heq; try discriminate; cbn [hnorm]. exact Heq.
+Qed.
+
 (* features with equal (group options, frameworks) are in the same hash class ... *)
 Lemma equal_options_same_class_l : forall a b,
   wfv (VDict (g_group a)) -> wfv (VDict (g_group b)) -> nofs (VDict (g_group a)) -> nofs (VDict (g_group b)) ->
@@ -480,12 +515,19 @@ Proof.
   intros a b Wa Wb Na Nb Ha Hb H. unfold opts_agree in H. apply andb_true_iff in H. destruct H as [H1 H2].
   unfold base_eqb. destruct (hash_key (VDict (g_group a))) as [x|] eqn:Ea; [|congruence].
   destruct (hash_key (VDict (g_group b))) as [y|] eqn:Eb; [|congruence].
-  rewrite (hash_key_respects_eq_l _ _ x y Wa Wb Na Nb H1 Ea Eb), H2. reflexivity.
+  rewrite (hnorm_respects_eq _ _ (hash_key_respects_eq_l _ _ x y Wa Wb Na Nb H1 Ea Eb)), H2. reflexivity.
 Qed.
 
 (* ... but not conversely: a list and a tuple with the same elements *)
 Definition hc_a : gfeat := {| g_id := 0; g_group := [(KStr "c", VList [VInt 1%Z; VInt 2%Z])]; g_ctx := []; g_cfw := None; g_ty := Some 1 |}.
 Definition hc_b : gfeat := {| g_id := 1; g_group := [(KStr "c", VTuple [VInt 1%Z; VInt 2%Z])]; g_ctx := []; g_cfw := None; g_ty := Some 1 |}.
+(* nor an empty string and a zero: hash("") = hash(0) *)
+Definition hc_c : gfeat := {| g_id := 0; g_group := [(KStr "c", VStr "")]; g_ctx := []; g_cfw := None; g_ty := Some 1 |}.
+Definition hc_d : gfeat := {| g_id := 1; g_group := [(KStr "c", VInt 0%Z)]; g_ctx := []; g_cfw := None; g_ty := Some 1 |}.
+Lemma hash_collision_refuted_l :
+  opts_agree hc_c hc_d = false /\ base_eqb hc_c hc_d = true /\ group_features [hc_c; hc_d] = [[0; 1]].
+Proof. repeat split. Qed.
+
 Lemma hash_conflation_refuted_l :
   opts_agree hc_a hc_b = false /\ base_eqb hc_a hc_b = true /\ kf_hash_conflation [hc_a; hc_b] = true /\
   group_features [hc_a; hc_b] = [[0; 1]].
